@@ -31,6 +31,8 @@ pub struct Ctx {
     /// symbolic build only: VERIF_CONCRETE=1 runs the drivers on concrete
     /// values (replay with a scripted random oracle)
     pub concrete: bool,
+    /// do not dump the term arena (large runs that only report derived facts)
+    pub deps_only: bool,
 }
 
 pub fn splitmix(mut x: u64) -> u64 {
@@ -93,7 +95,7 @@ impl Ctx {
             }
         });
         let concrete = cfg!(not(feature = "sym")) || std::env::var("VERIF_CONCRETE").is_ok();
-        Ctx { seed, vars: vec![], outs: vec![], meta: Default::default(), env_override, concrete }
+        Ctx { seed, vars: vec![], outs: vec![], meta: Default::default(), env_override, concrete, deps_only: false }
     }
 
     /// a free variable
@@ -149,9 +151,11 @@ impl Ctx {
             o.insert("env".into(), Value::Object(env));
         } else {
             o.insert("mode".into(), json!("sym"));
-            let nodes: Value =
-                serde_json::from_str(&dusk_bls12_381::sym::dump_nodes_json()).unwrap();
-            o.insert("nodes".into(), nodes);
+            if !self.deps_only {
+                let nodes: Value =
+                    serde_json::from_str(&dusk_bls12_381::sym::dump_nodes_json()).unwrap();
+                o.insert("nodes".into(), nodes);
+            }
         }
         #[cfg(not(feature = "sym"))]
         {
